@@ -181,6 +181,16 @@ pub fn knobs(profile: &str, thorough: bool, rng: &mut Rng) -> Knobs {
                 kn.dtor_downgrade_p = 1 + rng.below(3) as u32;
             }
             dense_hub(rng, &mut kn, thorough, 40);
+            // handles are also given up through try_unwrap / make_mut / the raw API
+            if rng.chance(1, 4) {
+                kn.consuming_on_adopted = true;
+                set_w(&mut kn, K::TryUnwrap, 3);
+                set_w(&mut kn, K::MakeMut, 3);
+                set_w(&mut kn, K::DropValue, 2);
+                set_w(&mut kn, K::IntoRaw, 1);
+                set_w(&mut kn, K::FromRaw, 1);
+                set_w(&mut kn, K::DecStrong, 1);
+            }
         }
         "C03" => {
             if rng.chance(1, 4) {
@@ -233,6 +243,7 @@ pub fn knobs(profile: &str, thorough: bool, rng: &mut Rng) -> Knobs {
             // handle-creating / handle-consuming calls are handle creation and destruction too
             if rng.chance(1, 2) {
                 set_w(&mut kn, K::MakeMut, 3);
+                set_w(&mut kn, K::SlotMakeMut, 2);
                 set_w(&mut kn, K::TryUnwrap, 1);
                 set_w(&mut kn, K::GetMut, 1);
                 set_w(&mut kn, K::DropValue, 1);
@@ -321,9 +332,11 @@ pub fn knobs(profile: &str, thorough: bool, rng: &mut Rng) -> Knobs {
                 kn.adopt_p = 8;
             }
             with_weak(rng, &mut kn, true);
+            with_selfsame(rng, &mut kn);
             kn.consuming_on_adopted = true;
             set_w(&mut kn, K::TryUnwrap, 5);
             set_w(&mut kn, K::MakeMut, 6);
+            set_w(&mut kn, K::SlotMakeMut, 4);
             set_w(&mut kn, K::GetMut, 2);
             set_w(&mut kn, K::IntoRaw, 3);
             set_w(&mut kn, K::FromRaw, 3);
@@ -342,6 +355,7 @@ pub fn knobs(profile: &str, thorough: bool, rng: &mut Rng) -> Knobs {
             kn.elide_p = 2 + rng.below(7) as u32;
             set_w(&mut kn, K::Take, 12);
             with_weak(rng, &mut kn, false);
+            with_selfsame(rng, &mut kn);
             kn.walk_len += 6;
             // "arbitrary further" operations include giving the taken handle up
             if rng.chance(1, 3) {
